@@ -87,7 +87,7 @@ hx_h128 hx_hash128(const void *d, size_t n) {
 }
 
 /* ------------------------------------------------------------------ live allocation table -- */
-typedef struct live_ent { void *p; uint32_t n; uint32_t gen; } live_ent;
+typedef struct live_ent { void *p; uint32_t n; uint32_t gen; void *pc; } live_ent;
 typedef struct live_tab { live_ent *e; size_t cap; size_t used; size_t cnt; uint32_t gen; int64_t bytes; } live_tab;
 #define LIVE_TOMB ((void *) 1)
 static live_tab lt_run, lt_cfg;
@@ -101,20 +101,21 @@ static void lt_reset(live_tab *t) {
     if (t->gen == 0) { memset(t->e, 0, t->cap * sizeof(live_ent)); t->gen = 1; }
 }
 static inline size_t lt_slot(const live_tab *t, const void *p) { return (size_t) (mix64((uint64_t) (uintptr_t) p) & (t->cap - 1)); }
+static void *lt_pc;    /* allocation site of the entry being added */
 static void lt_add_raw(live_tab *t, void *p, uint32_t n);
 static void lt_grow(live_tab *t) {
     live_tab o = *t;
     size_t nc = o.cnt * 4 > o.cap ? o.cap * 2 : o.cap;     /* only tombstones: same size */
     t->e = __real_calloc(nc, sizeof(live_ent)); t->cap = nc; t->used = t->cnt = 0; t->gen = 1; t->bytes = 0;
     for (size_t i = 0; i < o.cap; i++)
-        if (o.e[i].gen == o.gen && o.e[i].p != LIVE_TOMB) lt_add_raw(t, o.e[i].p, o.e[i].n);
+        if (o.e[i].gen == o.gen && o.e[i].p != LIVE_TOMB) { lt_pc = o.e[i].pc; lt_add_raw(t, o.e[i].p, o.e[i].n); }
     __real_free(o.e);
 }
 static void lt_add_raw(live_tab *t, void *p, uint32_t n) {
     size_t i = lt_slot(t, p);
     while (t->e[i].gen == t->gen && t->e[i].p != LIVE_TOMB) i = (i + 1) & (t->cap - 1);
     if (t->e[i].gen != t->gen) t->used++;
-    t->e[i].p = p; t->e[i].n = n; t->e[i].gen = t->gen;
+    t->e[i].p = p; t->e[i].n = n; t->e[i].gen = t->gen; t->e[i].pc = lt_pc;
     t->cnt++; t->bytes += n;
 }
 static void lt_add(live_tab *t, void *p, size_t n) {
@@ -167,7 +168,19 @@ static inline int fault_now_(void *ra, void *fp) {
     }
     return 0;
 }
-static inline void track_add(void *p, size_t n) {
+static const char *lt_first_leak_site(live_tab *t) {
+    static char buf[200]; buf[0] = 0;
+    for (size_t i = 0; i < t->cap; i++) if (t->e[i].gen == t->gen && t->e[i].p != LIVE_TOMB) {
+        Dl_info di; const char *nm = (t->e[i].pc && dladdr(t->e[i].pc, &di) && di.dli_sname) ? di.dli_sname : "?";
+        snprintf(buf, sizeof buf, "%u bytes allocated in %s", t->e[i].n, nm); break;
+    }
+    return buf;
+}
+#define track_add(p, n) do { void **f_ = (void **) __builtin_frame_address(0); void *pc_ = __builtin_return_address(0); \
+        /* skip generic helpers: take the return address two frames up when the direct caller is bstr_alloc & co */ \
+        for (int d_ = 0; d_ < 3 && f_ && f_[0] && (void **) f_[0] > f_; d_++) { f_ = (void **) f_[0]; if (f_[1]) pc_ = f_[1]; } \
+        lt_pc = pc_; track_add_(p, n); } while (0)
+static inline void track_add_(void *p, size_t n) {
     if (!p) return;
     if (hx_in_lib == 1) { lt_add(&lt_run, p, n); hx_live_bytes = lt_run.bytes; }
     else lt_add(&lt_cfg, p, n);
